@@ -247,8 +247,8 @@ def gen_params(rng, models, mode, flavour, max_runs):
     return params
 
 
-LONG_EXPRS = ["numpy.arange(1, 25)", "numpy.arange(40)", "numpy.linspace(0, 1, 30)", "numpy.arange(3, 36, 1.5)",
-              "numpy.arange(22)*0.5", "numpy.linspace(1, 2, 21)"]
+LONG_EXPRS = ["numpy.arange(1, 25)", "numpy.arange(40)", "numpy.linspace(0, 1, 30)", "numpy.arange(3,48,1.5)",
+              "numpy.arange(22)*0.5", "numpy.linspace(1,2,33)"]
 
 
 def make_long(case, rng):
@@ -313,8 +313,8 @@ def gen_case(rng, mode=None, with_dask=None, flavour=None, max_runs=16):
                          | ({"environment.temperature"} if rng.random() < 0.3 else set())),
         "params": params,
     }
-    if flavour == "long_expr" and mode != "custom":
-        make_long(case, rng)
+    if flavour == "long_expr" and mode != "custom" and not make_long(case, rng):
+        return gen_case(rng, mode=mode, with_dask=with_dask, flavour=flavour, max_runs=max_runs)
     if mode == "custom":
         case["table"] = gen_table(rng, params)
         case["extra_cols"] = rng.choice([0, 0, 1, 2])
